@@ -196,3 +196,46 @@ def c12(case):
         return {"exc": "none", "out": out, "rewrap": x.trs, "eq": bool(eq), "attrs": attrs}
     except Exception as e:  # noqa
         return _exc(e)
+
+
+# ---------------------------------------------------------------------------
+# C17: custom_sort / sort_tracts
+
+def _trs_from_shape(e):
+    def tr(c):
+        if c["k"] == "num":
+            return "%d%s" % (c["n"], c["d"])
+        return "XXXz" if c["k"] == "err" else "___z"
+    s = e["sec"]
+    sec = "%02d" % s["n"] if s["k"] == "num" else ("XX" if s["k"] == "err" else "__")
+    return tr(e["twp"]) + tr(e["rge"]) + sec
+
+
+def c17(case):
+    import pytrs
+    a = case["args"]
+    elems = a["elems"]            # abstract elements in list order, each with 'uid' (creation rank)
+    container = a["container"]    # TractList | TRSList | PLSSDesc
+    try:
+        if container == "TRSList":
+            objs = [pytrs.TRS(_trs_from_shape(e)) for e in elems]
+            lst = pytrs.TRSList(objs)
+        else:
+            by_uid = sorted(range(len(elems)), key=lambda j: elems[j]["uid"])
+            made = {}
+            for j in by_uid:      # create in uid order so that creation order == uid order
+                made[j] = pytrs.Tract("NE/4", trs=_trs_from_shape(elems[j]))
+            objs = [made[j] for j in range(len(elems))]
+            lst = pytrs.TractList(objs)
+        ids = {id(o): j + 1 for j, o in enumerate(objs)}
+        if container == "PLSSDesc":
+            d = pytrs.PLSSDesc("T1N-R1W Sec 1: NE/4")
+            d.tracts = lst
+            d.sort_tracts(a["key"])
+            after = list(d.tracts)
+        else:
+            lst.custom_sort(a["key"])
+            after = list(lst)
+        return {"exc": "none", "out": [ids.get(id(o), 0) for o in after]}
+    except Exception as e:  # noqa
+        return _exc(e)
